@@ -176,6 +176,6 @@ def d4_labels(ctx):
 
 
 def run(ctx):
-    d1_rows(ctx)
-    d2_d3_weights(ctx)
-    d4_labels(ctx)
+    ctx.run(d1_rows)
+    ctx.run(d2_d3_weights)
+    ctx.run(d4_labels)
